@@ -422,6 +422,9 @@ func VerifyFunc(w *World, fi *FuncInfo) (res *FuncResult) {
 	for _, r := range sp.Requires {
 		st.assume(c.specEval(r.Expr, st, st, vars))
 	}
+	for _, r := range sp.Assumes {
+		st.assume(c.specEval(r.Expr, st, st, vars))
+	}
 	// vacuity canary: the precondition must be satisfiable ("false" must not be provable from it)
 	x.oblige(st, "vacuity", "entry", nil, False, fi.Decl.Pos(), "precondition is satisfiable")
 	entry := st.Clone()
